@@ -85,7 +85,7 @@ Theorem their_write_session ms i m term ws :
 Proof.
   intros W Hw ops wf w0.
   destruct (their_wops_wire ms W DEFCHUNK ws Hw) as [_ Hmap].
-  assert (Hc : PB.clean (bufw_new wf)) by (split; [reflexivity|split; reflexivity]).
+  assert (Hc : PB.clean (bufw_new wf)) by (repeat split; reflexivity).
   pose proof (PB.rtmp_write_ops_cases ops (bufw_new wf) 0 Hc eq_refl) as S1.
   assert (Hsb : PS.simb i (bufw_new wf) (bufw_new w0))
     by (split; [reflexivity|split; [reflexivity|split; [reflexivity|apply PS.sim_new]]]).
